@@ -647,6 +647,12 @@ def run():
                 slow = [it for it in items if lib.get(it[0], {}).get("timeout")]
                 keep = {it[0] for it in rng.sample(slow, min(len(slow), 40 if thorough else 8))}
                 sitems = [it for it in items if not lib.get(it[0], {}).get("timeout") or it[0] in keep]
+                # ... and some of them get the real binary's much longer bound: a text that recurses without end inside the
+                # compiler takes half a minute to exhaust the stack (fatal error: stack overflow), far beyond the in-process bound
+                cls_of = {c["id"]: c["cls"][-1] for c in cases}
+                plain = [it for it in slow if "<DEEP" not in cls_of[it[0]] and it[0] not in dict(pick)]
+                f_slow = ex.submit(run_real, ego, env, sd, rng.sample(plain, min(len(plain), 150 if thorough else 6)), "run",
+                                   12 if thorough else 6)
                 # one client per server: two texts compiled at the same moment in one server are outside this property
                 # (and do kill it: settings.Get / SetDefault share an unguarded map), so throughput comes from several servers
                 srv, restarts = {}, 0
@@ -656,6 +662,7 @@ def run():
                         srv.update(r)
                         restarts += n
                 runs, repl = f_run.result(), f_rep.result()
+                runs.update(f_slow.result())
         finally:
             for pl in pools:
                 pl.stop()
